@@ -16,12 +16,12 @@ func init() {
 		NotDecided:  "that a replica which reported success applied the write; the history-level consequence (every in-service replica holds every acknowledged write).",
 	}
 	registry["C03"] = &propSpec{
-		Rules:       []ruleFn{ruleC03Thresh, ruleC03Gate, ruleFresh("C03-FRESH", fCtl+"UpdateVolStatus"), ruleC05Monitor("C03-MONITOR")},
+		Rules:       []ruleFn{ruleC03Thresh, ruleC03Gate, ruleFresh("C03-FRESH", fCtl+"UpdateVolStatus"), ruleC05Monitor("C03-MONITOR"), ruleGuardedBy("C03-GUARDEDBY")},
 		Explanation: "Decides that (C03-THRESH) ReadOnly is false exactly on the edge rw >= (RF+quorum)/2+1 with rw counting Mode==RW entries; (C03-GATE) every mutating backend call is dominated by ReadOnly==false tested after taking the controller write lock, in the same lock region; (C03-FRESH) a typestate analysis with interprocedural, error-split summaries shows that at every release of the controller lock no membership or mode change is pending without UpdateVolStatus().",
 		NotDecided:  "that replicas believed RW are up to date; liveness beyond freshness at unlock.",
 	}
 	registry["C04"] = &propSpec{
-		Rules:       []ruleFn{ruleBuildRW("C04-READERS"), ruleC04Lists("C04-LISTS"), ruleIndexMapUse("C04-READSRC"), ruleC04Verify("C04-VERIFY"), ruleC04Promote("C04-PROMOTE"), ruleC04ReadGate, ruleDetach("C04-DETACH"), ruleC05Monitor("C04-ERRSUPPRESS"), ruleC19Promote("C04-CLONEGATE"), ruleC09},
+		Rules:       []ruleFn{ruleBuildRW("C04-READERS"), ruleC04Lists("C04-LISTS"), ruleIndexMapUse("C04-READSRC"), ruleC04Verify("C04-VERIFY"), ruleC04Promote("C04-PROMOTE"), ruleC04ReadGate, ruleDetach("C04-DETACH"), ruleC05Monitor("C04-ERRSUPPRESS"), ruleC19Promote("C04-CLONEGATE"), ruleC09, ruleGuardedBy("C04-GUARDEDBY")},
 		Explanation: "Decides that readers are exactly the mode==RW backends and are rebuilt after every change of the backend map or of a mode; reads are issued only from replicator.ReadAt on r.readers[index] and a failed reader is reported under the same index; the only promotion sites are the allow-listed ones; VerifyRebuildReplica promotes only after, in order, WO mode, both chains and the checkpoint fetched, checkpoint containment, DeepEqual of the chains, the RW counter read, the replica switched to RW and the counter copied; the reference replica is selected under Mode==RW; ERR is sticky.",
 		NotDecided:  "that an equal chain implies equal data; round-robin fairness.",
 	}
@@ -51,7 +51,7 @@ func init() {
 		NotDecided:  "truthfulness of reported counts; liveness probes; orderings of registrations as such.",
 	}
 	registry["C10"] = &propSpec{
-		Rules:       []ruleFn{ruleC10, ruleRevParse("C10-REVPARSE"), ruleC04Verify("C10-PROMOTE-COPY"), ruleC17Srv, ruleC09, ruleErrFlow("C10-ERRFLOW"), ruleC08Order("C10-INIT")},
+		Rules:       []ruleFn{ruleC10, ruleRevParse("C10-REVPARSE"), ruleC04Verify("C10-PROMOTE-COPY"), ruleC17Srv, ruleC09, ruleErrFlow("C10-ERRFLOW"), ruleC08Order("C10-INIT"), ruleGuardedBy("C10-GUARDEDBY")},
 		Explanation: "Decides that the counter is increased exactly once per write, only in RW mode and only after the data write succeeded; that the cache and the counter file are touched only by the revision-counter API under revisionLock, the cache after the persist and with the persisted value; that setting requires RW; and that promotion copies the RW replica's counter after switching the replica to RW, under the controller lock.",
 		NotDecided:  "monotonicity across a crash (atomicity of one O_DIRECT 4 KiB write); equality of counters across replicas as a run-time fact.",
 	}
@@ -66,12 +66,12 @@ func init() {
 		NotDecided:  "acyclicity/shape of the chain as a run-time graph; equality of the reopened chain with the previous one.",
 	}
 	registry["C13"] = &propSpec{
-		Rules:       []ruleFn{ruleC13Ctl, ruleFresh("C13-FRESH", fCtl+"UpdateCheckpoint"), ruleC03Gate, ruleC12, ruleC13Persist, ruleC08Atomic, ruleC08Err, ruleErrFlow("C13-ERRFLOW")},
+		Rules:       []ruleFn{ruleC13Ctl, ruleFresh("C13-FRESH", fCtl+"UpdateCheckpoint"), ruleC03Gate, ruleC12, ruleC13Persist, ruleC08Atomic, ruleC08Err, ruleErrFlow("C13-ERRFLOW"), ruleGuardedBy("C13-GUARDEDBY")},
 		Explanation: "Decides that the snapshot fan-out and every mutating I/O run under the controller write lock (so they cannot interleave), that a volume snapshot needs RWReplicaCount==RF, goes to every non-ERR backend with identical arguments and reports per-replica failures; that the checkpoint is non-empty only when rw==RF, all RW chains agree on chain[1] and every replica stored it; that the checkpoint is recomputed before the lock is released after any membership change; and that the replica persists it.",
 		NotDecided:  "identical content of the snapshot across replicas.",
 	}
 	registry["C14"] = &propSpec{
-		Rules:       []ruleFn{ruleC14Lock, ruleC14Block, ruleC14Fatal, ruleC14Idx, ruleC14Wrap, ruleC17Matrix, ruleC17Srv, ruleC07AddOrder("C14-NODUP"), ruleC09, ruleWgDone("C14-WGDONE"), ruleNilOK("C14-NILOK"), ruleMakeLen("C14-MAKELEN")},
+		Rules:       []ruleFn{ruleC14Lock, ruleC14Block, ruleC14Fatal, ruleC14Idx, ruleC14Wrap, ruleC17Matrix, ruleC17Srv, ruleC07AddOrder("C14-NODUP"), ruleC09, ruleWgDone("C14-WGDONE"), ruleNilOK("C14-NILOK"), ruleMakeLen("C14-MAKELEN"), ruleGuardedBy("C14-GUARDEDBY")},
 		Explanation: "Decides, for every production function: no double unlock (incl. deferred), no self-deadlock directly or through a callee, no return with a lock held, an acyclic lock order; no blocking send under the controller / replica-server lock outside the allow-listed consumer-backed queues; in the handler-reachable region only allow-listed terminators and single-value type assertions, bounds facts on chains received from replicas, no nil result dereferenced with its error ignored; every route wrapped by HandleError and action routes by checkAction.",
 		NotDecided:  "panics inside third-party handlers, resource exhaustion, liveness of remote calls made under the lock.",
 	}
@@ -86,12 +86,12 @@ func init() {
 		NotDecided:  "that existing bytes are unchanged and the new range reads zero (properties of truncate(2)).",
 	}
 	registry["C17"] = &propSpec{
-		Rules:       []ruleFn{ruleC17Attach, ruleC17Srv, ruleC17Matrix, ruleC17Status, ruleC11Refuse("C17-RW-ONLY"), ruleC10},
+		Rules:       []ruleFn{ruleC17Attach, ruleC17Srv, ruleC17Matrix, ruleC17Status, ruleC11Refuse("C17-RW-ONLY"), ruleC10, ruleGuardedBy("C17-GUARDEDBY")},
 		Explanation: "Decides that every Server method uses the open replica only under a server lock and a nil test, that closed replicas refuse I/O, that a second Open is refused, that Close marks the replica CLOSED unconditionally, that writes succeed only in RW/WO, that removal and counter updates require RW, that attach requires state closed, and that the state->action table forbids chain-mutating actions while rebuilding / open outside closed / create outside initial, with every action route gated by checkAction.",
 		NotDecided:  "'refused without side effects' for actions that pass the table and fail later.",
 	}
 	registry["C18"] = &propSpec{
-		Rules:       []ruleFn{ruleC18, ruleCanAdd("C18-ADMIT"), ruleC04Promote("C18-MODE"), ruleC07AddOrder("C18-ADD"), ruleC04Lists("C18-REMOVE"), ruleBuildRW("C18-INDEX"), ruleIndexMapUse("C18-INDEXUSE"), ruleFresh("C18-COUNT", fCtl+"UpdateVolStatus"), ruleC03Thresh},
+		Rules:       []ruleFn{ruleC18, ruleCanAdd("C18-ADMIT"), ruleC04Promote("C18-MODE"), ruleC07AddOrder("C18-ADD"), ruleC04Lists("C18-REMOVE"), ruleBuildRW("C18-INDEX"), ruleIndexMapUse("C18-INDEXUSE"), ruleFresh("C18-COUNT", fCtl+"UpdateVolStatus"), ruleC03Thresh, ruleGuardedBy("C18-GUARDEDBY")},
 		Explanation: "Decides that each mutation site preserves the pairing of the replica list with the backend map (append/AddBackend, splice/RemoveBackend, mode/SetMode, reset), that admission is dominated by the duplicate test, the one-WO rule and the replication-factor test in the lock region of the append, that index maps are rebuilt from scratch with every change, and that the RW count is recomputed before the lock is released.",
 		NotDecided:  "the invariants as statements over all reachable states (only preservation by every mutation site).",
 	}
